@@ -36,6 +36,20 @@ def run(ctx):
         for r in sub.results:
             r.rule = "R03-3b"
             ctx.results.append(r)
+    # R03-4 (shared with C11): the C entry point of recovery hands the two messages to recover_id_secret and publishes exactly the
+    # bytes it produced on the Ok arm - also when they are empty ("no secret"): a buffer left untouched would keep an earlier secret
+    from . import c11
+    k = 0
+    for cfg in cfgs[:1]:
+        fb = ctx.fb(cfg)
+        for w in c11.wrappers(fb):
+            if w["name"] == "recover_id_secret":
+                sub = type(ctx)(ctx.pid, ctx.tier)
+                c11.check_wrapper(sub, fb, w, cfg)
+                k += 1
+                for r in sub.results:
+                    (ctx.ok if r.status == "ok" else ctx.fail)("R03-4", r.instance, r.reason, r.loc)
+    ctx.floor("recovery-ffi-wrapper", k, 1)
     fx = ctx.fb("fixtures")
     from ..main import Ctx
     sub = Ctx(ctx.pid, ctx.tier)
